@@ -9,7 +9,7 @@
     preexpand {"lines": [str]} -> {"ok": [str]}   (`_apply_pre_parsing_expansions`, line lists)
     textseg  {"text": str, "toks": [[offset, ty, len]], "k": n?} -> {"seg": [pieces], "text"?: scaled text} | {"segerr": "badChar"}
              the character-level scanner `TextLayout.seg` with the body-token oracle given as a table of token starts
-    numbered {"lines": [str], "k": n?} -> {"ok": [[text, indentation, comment|null]], "tight": bool} | {"err": "IndexError", "tight": bool}
+    numbered {"lines": [str] | "text": str, "k": n?} -> {"ok": [[text, indentation, comment|null]], "tight": bool} | {"err": "IndexError", "tight": bool}
              with "k": the records of the lines after `scaleLine k`; "tight" = every line satisfies `openerTight` (hypothesis of
              `numbered_lines_scale_partial`)
 -/
@@ -102,9 +102,13 @@ def handle (op : String) (j : Json) : Except String Json := do
     | .returned => pure (Json.mkObj [("returned", .bool true)])
     | .raised cls msg => pure (Json.mkObj [("raised", .str cls), ("msg", safeStr msg)])
   | "numbered" =>
-    let la ← (← j.getObjVal? "lines").getArr?
-    let lines ← la.toList.mapM fun x => x.getStr?
-    let ls0 := lines.map String.toList
+    -- either the lines (`content.split("\n")` done by the harness) or the content itself (`"text"`: Lean's own `splitNL`)
+    let ls0 ← match j.getObjVal? "text" with
+      | .ok tj => do pure (NumberedLines.splitNL (← tj.getStr?).toList)
+      | _ => do
+        let la ← (← j.getObjVal? "lines").getArr?
+        let lines ← la.toList.mapM fun x => x.getStr?
+        pure (lines.map String.toList)
     let tight := Json.bool (ls0.all NumberedLines.openerTight)
     let ls := match j.getObjVal? "k" with
       | .ok kj => match kj.getNat? with
